@@ -105,6 +105,15 @@ def handle (kind : String) (args : List String) (impl : String) : String :=
       let implProcs := ((impl.splitOn " | procs ").getD 1 "")
       let want := specProcsStrict st
       if implProcs == want then "ok" else s!"SPEC processors-differ-from-configured expected={want} impl={impl}"
+  | "c08.ep", [_] =>
+    -- the processor's host set is the latest endpoint set: address and type; an endpoint without an address names no host
+    if impl == "store=1m,2b procs=1m,2b" || impl == "store=1m,2m procs=1m,2m" then
+      (if (args == ["retype"]) == (impl == "store=1m,2b procs=1m,2b") then "ok" else s!"SPEC processor-hosts-differ-from-the-endpoint-set impl={impl}")
+    else s!"SPEC processor-hosts-differ-from-the-endpoint-set impl={impl}"
+  | "c08.hc", [mode] =>
+    -- a valid update is applied, an invalid one is refused and changes nothing; nothing crashes; only healthy hosts are used
+    let want := if mode == "int" then "update=ok answered=4/4" else if mode == "atcp" then "new=error" else if mode == "rej" then "update=error answered=4/4" else ""
+    if want == "" then "bad-op" else if impl == want then "ok" else s!"SPEC processor-does-not-follow-the-latest-valid-configuration expected={want} impl={impl}"
   | "c08.hcoff", [] =>
     -- the processor's configuration is the latest one (no health check), the process is alive, and with no health check every
     -- endpoint is used: two of four round-robin connections reach each backend
